@@ -16,6 +16,9 @@ CLAIMED = {
     "C17": ("The codon dictionary and the complement tables are dumped from the running code on every run; over that dump the kernel evaluates the complete sweeps (all 3375 IUPAC codons against unique-product under an independently written standard code, all 64 unambiguous codons, all 32 accepted characters x both gap encodings for complement in text and bit-encoded form) and the sweeps are lifted to universally quantified theorems; Translate (strict and lenient) and complement/reverse-complement involution are proved for every length. Differential run of alphabet.Translate/Complement/ReverseComplement and the FastaRecord/EncodedFastaRecord methods against model and spec.",
             "Coq proof (complete finite sweeps of tables regenerated from the code, lifted by forallb_forall; induction over length) + correspondence check",
             "", "5 C17"),
+    "C10": ("For every pair of byte files the Coq model of `updown list` (reader, the getLines scan with its open-tract state, range and row printer) is proved equal to a declarative specification command: SNP list = the A/C/G/T columns whose base is not in the reference symbol's set, ranges = starts of maximal runs of non-A/C/G/T columns paired with their stops, counts as counted (C10_command_eq_spec); separately: the row reconstructs the class of every column (C10_list_reconstructs), ranges are ascending and pairwise non-adjacent, SNPs ascending and exact. Tied to the code by the regenerated tables and a differential run of updown.List against model and spec.",
+            "Coq proof (invariant over the scan fold, induction over columns, table sweeps) + correspondence check",
+            "", "5 C10"),
     "C03": ("For every pair of byte files the Coq model of `snps` (reader over the dumped encoding tables, bitwise "
             "test, decoder, row printer) is proved equal to the specification command built from the IUPAC meaning "
             "of the symbols (C03_command_eq_spec), with soundness, completeness, ascending order and "
